@@ -21,8 +21,16 @@ def module_path(modname: str) -> str:
     raise SourceError(f"module {modname} not found under {REPO}")
 
 
-@functools.lru_cache(maxsize=None)
+TOUCHED: set = set()  # modules read since the set was last cleared (dependency tracking for the result cache)
+
+
 def load_module(modname: str) -> "ModuleInfo":
+    TOUCHED.add(modname)
+    return _load_module(modname)
+
+
+@functools.lru_cache(maxsize=None)
+def _load_module(modname: str) -> "ModuleInfo":
     path = module_path(modname)
     with open(path, encoding="utf-8") as f:
         text = f.read()
